@@ -77,6 +77,8 @@ def pack_scripts(rng, n, noid=4):
 
 def run(ctx):
     clock.install()
+    from .. import concretize
+    concretize.FORMATS = 'bareonly'      # every third object is referenced by its bare oid only
     q = ctx.quick
     props = ['PackPreserves', 'RepackChangesNothing']
     # 1. the transcriptions of both packers against the C07 relation PackOK
